@@ -9,12 +9,12 @@ STRINGS = GP.strings()
 
 class C07(Prop):
     ID = "C07"
-    RULE = ("every pattern generated from the documented subset: each of 29 atoms (literals, escaped metacharacters, ., "
+    RULE = ("every pattern generated from the documented subset: each of 53 atoms (literals, escaped metacharacters, ., "
             "\\d \\s \\w, sets/negated sets/ranges/metacharacters in sets) x 13 quantifiers; concatenation and alternation of "
             "all pairs of 6 atoms x 7 quantifiers; quantified groups of binary combinations and nested quantified groups; "
             "(thorough) a pruned depth-3 family; plus patterns Python rejects; each against all strings of length <=2 over "
-            "a 12-letter printable alphabet and <=4 over {a,b,0,-}; non-trivial = pattern with an operator or a set")
-    BOUNDS = "pattern depth <= 2 (3 pruned, thorough); 477 strings per pattern"
+            "a 16-letter printable alphabet (newline included) and <=4 over {a,b,0,-}; non-trivial = pattern with an operator or a set")
+    BOUNDS = "pattern depth <= 2 (3 pruned, thorough); 593 strings per pattern"
     CLAUSES = ["C07.accepts", "C07.construct", "C07.rejects_invalid", "C07.*.terminates"]
     ASSUMPTIONS = ["CPython's re module is the oracle (the property's own)"]
     HORIZON = 30.0
